@@ -521,6 +521,23 @@ func c05Vector(c *Ctx, raw stdjson.RawMessage) {
 				d = append(d, strings.Repeat(w[1], k)...)
 				c.Case()
 				c05All(c, d, lim.acc, true, tag, "depth-limit")
+				// the same limit where a part of the document is checked on its own (a RawMessage below the first
+				// level, a skipped member or element): the levels above it count
+				if k > 1 && wi < 2 && (len(v.D) <= 2 || r.intn(4) == 0) {
+					d1 := append([]byte(strings.Repeat(w[0], k-1)), inner...)
+					d1 = append(d1, strings.Repeat(w[1], k-1)...)
+					for _, wr := range c05Wrappers {
+						if strings.Contains(wr.pre, longGap) {
+							continue
+						}
+						wd := append(append([]byte(wr.pre), d1...), wr.post...)
+						if stdjson.Valid(wd) != lim.acc {
+							c.SpecError("C05", "encoding/json.Valid disagrees with the depth lifting on a wrapped document "+wr.wrap, c05Case{wr.name, "", lim.acc})
+							continue
+						}
+						c05Check(c, wr.name, wr.accepts, wd, lim.acc, tag, "depth-limit", "wrap="+wr.wrap)
+					}
+				}
 			}
 		}
 	}
